@@ -40,10 +40,85 @@ inductive Reject where
   | shape (what : String)
 deriving Repr
 
-/-- State: number of entries into the four conversion entry points (property C18). -/
-abbrev M := StateT Nat (Except Reject)
-def tick : M Unit := modify (· + 1)
-def reject {α} (r : Reject) : M α := throw r
+/-! ### the model's monad: state + rejection, linear in the conversion entries *by construction*
+
+The state records which (entry point, node) pairs have been entered.  `enter` is the only operation
+that changes it, and it refuses to enter the same pair twice or a node whose number is not below
+`limit` (the number of nodes of the tree).  A computation of type `M α` carries the proof that it
+preserves this invariant, so every definition of the model — written in ordinary `do` notation —
+is linear by construction and the kernel checks it (property C18). -/
+
+structure St where
+  /-- number of nodes of the tree being printed -/
+  limit : Nat
+  /-- codes `entry * limit + node` of the conversion entries so far, most recent first -/
+  visited : List Nat := []
+
+/-- Number of entries into the four conversion entry points so far (the hook counter). -/
+def St.calls (s : St) : Nat := s.visited.length
+
+def St.OK (s : St) : Prop := s.visited.Nodup ∧ ∀ v ∈ s.visited, v < 4 * s.limit
+
+def Preserves {α : Type} (f : St → Except Reject (α × St)) : Prop :=
+  ∀ s, s.OK → ∀ a s', f s = .ok (a, s') → s'.OK ∧ s'.limit = s.limit
+
+structure M (α : Type) where
+  run : St → Except Reject (α × St)
+  ok : Preserves run
+
+def M.pure' {α : Type} (a : α) : M α :=
+  ⟨fun s => .ok (a, s), by intro s hs a' s' h; cases h; exact ⟨hs, rfl⟩⟩
+
+def M.bind' {α β : Type} (x : M α) (f : α → M β) : M β :=
+  ⟨fun s => match x.run s with
+    | .ok (a, s1) => (f a).run s1
+    | .error e => .error e,
+   by
+    intro s hs b s' h
+    cases hx : x.run s with
+    | error e => simp [hx] at h
+    | ok p =>
+      obtain ⟨a, s1⟩ := p
+      simp only [hx] at h
+      have h1 := x.ok s hs a s1 hx
+      have h2 := (f a).ok s1 h1.1 b s' h
+      exact ⟨h2.1, h2.2.trans h1.2⟩⟩
+
+instance : Monad M where
+  pure := M.pure'
+  bind := M.bind'
+
+def reject {α : Type} (r : Reject) : M α := ⟨fun _ => .error r, by intro s _ a s' h; cases h⟩
+
+/-- The four counted conversion entry points. -/
+inductive Entry | expr | pattern | markup | math deriving DecidableEq, Repr
+def Entry.code : Entry → Nat
+  | .expr => 0 | .pattern => 1 | .markup => 2 | .math => 3
+
+/-- Enter a conversion entry point on the node numbered `id`: counted once; a second entry of
+the same pair, or a number that is not a node of the tree, is refused. -/
+def enter (k : Entry) (id : Nat) : M Unit :=
+  ⟨fun s =>
+    if id < s.limit ∧ (k.code * s.limit + id) ∉ s.visited then
+      .ok ((), { s with visited := (k.code * s.limit + id) :: s.visited })
+    else .error (.shape s!"conversion entry {repr k} entered twice on node {id} (or node number out of range)"),
+   by
+    intro s hs a s' h
+    simp only at h
+    split at h
+    · rename_i hc
+      cases h
+      refine ⟨⟨List.nodup_cons.mpr ⟨hc.2, hs.1⟩, ?_⟩, rfl⟩
+      intro v hv
+      rcases List.mem_cons.mp hv with rfl | hv'
+      · have : k.code < 4 := by cases k <;> simp [Entry.code]
+        have h1 : k.code * s.limit + id < k.code * s.limit + s.limit := Nat.add_lt_add_left hc.1 _
+        have h2 : k.code * s.limit + s.limit = (k.code + 1) * s.limit := by rw [Nat.add_mul, Nat.one_mul]
+        have h3 : (k.code + 1) * s.limit ≤ 4 * s.limit := Nat.mul_le_mul_right _ (by omega)
+        show k.code * s.limit + id < 4 * s.limit
+        omega
+      · exact hs.2 v hv'
+    · cases h⟩
 
 def Env.tok (e : Env) (s : String) : Doc := mkText e.wd .tok s
 def Env.syn (e : Env) (s : String) : Doc := mkText e.wd .syn s
